@@ -143,6 +143,16 @@ if ROUND == 8:
               "C18P": "cp_als data with a sparsely populated mode (sparse single-mode products)",
               "C19P": "family k_extract: component lists with negative, out-of-range and surplus entries in four spellings",
               "C20P": "teneye of order 6"}
+if ROUND == 9:
+    MISSED = {"C03Q": "the zeros of a dense divisor stored as negative zeros (x / -0 = -(x / 0))",
+              "C06Q": "operands with more than 2048 stored entries (Elementwise_Big shared with C03)",
+              "C07Q": "spellings of the target shape of a reshape: tuple, list, integer array, bare integer",
+              "C09Q": "sparse data with a sparsely populated mode (sparse single-mode products)",
+              "C13Q": "the bare zero sampler with and without replacement (kind 'zeros' in Sampler.tla)",
+              "C14Q": "Tucker tensors with unit-norm but oblique factors",
+              "C16Q": "the index base as a numpy integer scalar, also of a narrow type",
+              "C18Q": "cp_als problems with one mode held fixed (optdims) under relabelling",
+              "C20Q": "densities of index spaces with 2^60 .. 2^64 cells (sptenrand_pow2 in Generators.tla)"}
 for d in sorted(SRC.glob("C??[CDEFGHIJKLMNOPQ]")):
     rj = d / "result.json"
     if not rj.exists():
